@@ -46,6 +46,16 @@ func runC14(c *Ctx) {
 	c.NotCovered("agreement of Verify with an independently written evaluator on all policy trees and witness assignments", "that the untampered satisfied policy is accepted")
 	ge := NewGuardEngine(c.P, c.Depth+4)
 	tab := c14Table()
+	// the total-complexity budget may count up ("total += n; total > 1024") or down ("n > remaining;
+	// remaining -= n" from 1024): the second spelling is recognised on the SSA of Verify's closure and, when it is
+	// exactly that, the row is matched against the comparison with the budget cell
+	if c14CountsDown(c, ge) {
+		for i := range tab {
+			if tab[i].ID == "threshold-complexity-total" {
+				tab[i].L = pat("len(" + "{types.SpendPolicy}.Type" + ".(types.PolicyTypeThreshold).Of)")
+			}
+		}
+	}
 	runGuardTable(c, "verify-guard", ge, tab)
 	c.Min("verify-guard", len(tab))
 	// (3) exhaustiveness over the policy sum type (the anonymous interface in SpendPolicy.Type)
@@ -208,3 +218,85 @@ func c14Address(c *Ctx, ge *GuardEngine) {
 
 // a fresh copy of the threshold's children, however it is made
 var freshOfRe = regexp.MustCompile(`^(append\(nil,|call slices\.Clone\[.*?\]\(|fresh\(Clone )\{types\.SpendPolicy\}\.Type\.\(types\.PolicyTypeThreshold\)\.Of\)\[`)
+
+// c14CountsDown: some closure of Verify compares len(x.Of) with a captured integer cell C by ">" (rejecting), C is
+// initialised to the constant 1024 before the closure is made, and its only other store is C - len(x.Of) of the
+// same x, executed after the comparison passed. Then "len > C" is "visited so far + len > 1024".
+func c14CountsDown(c *Ctx, ge *GuardEngine) bool {
+	root := c.P.Func("types.(SpendPolicy).Verify")
+	if root == nil {
+		return false
+	}
+	for _, fn := range allAnon(root) {
+		for _, b := range fn.Blocks {
+			ifi, ok := b.Instrs[len(b.Instrs)-1].(*ssa.If)
+			if !ok {
+				continue
+			}
+			bo, ok := ifi.Cond.(*ssa.BinOp)
+			if !ok || bo.Op != token.GTR {
+				continue
+			}
+			lenCall, ok := bo.X.(*ssa.Call)
+			if !ok {
+				continue
+			}
+			if bi, isB := lenCall.Call.Value.(*ssa.Builtin); !isB || bi.Name() != "len" {
+				continue
+			}
+			ld, ok := bo.Y.(*ssa.UnOp)
+			if !ok || ld.Op != token.MUL {
+				continue
+			}
+			fv, ok := ld.X.(*ssa.FreeVar)
+			if !ok {
+				continue
+			}
+			cell, _ := ge.pv.resolve(fv).(*ssa.Alloc)
+			if cell == nil {
+				continue
+			}
+			// initial store in the parent
+			init := false
+			for _, r := range *cell.Referrers() {
+				if st, isSt := r.(*ssa.Store); isSt && st.Addr == ssa.Value(cell) {
+					if k, isK := constInt(st.Val); isK && k == 1024 {
+						init = true
+					} else {
+						return false
+					}
+				}
+			}
+			if !init {
+				continue
+			}
+			// stores through the free variable in this closure
+			lenAtom := ge.pv.Atom(lenCall, nil)
+			okStores, n := true, 0
+			for _, r := range *fv.Referrers() {
+				st, isSt := r.(*ssa.Store)
+				if !isSt || st.Addr != ssa.Value(fv) {
+					continue
+				}
+				n++
+				sub, isSub := st.Val.(*ssa.BinOp)
+				if !isSub || sub.Op != token.SUB {
+					okStores = false
+					continue
+				}
+				l2, isLd := sub.X.(*ssa.UnOp)
+				if !isLd || l2.X != ssa.Value(fv) || ge.pv.Atom(sub.Y, nil) != lenAtom {
+					okStores = false
+				}
+				// after the comparison passed: dominated by the false edge
+				if !edgeDominates(b, 1, st.Block()) {
+					okStores = false
+				}
+			}
+			if okStores && n == 1 {
+				return true
+			}
+		}
+	}
+	return false
+}
